@@ -276,8 +276,11 @@ namespace sim
       std::size_t read_idx = 0;
       std::uint32_t reads_after_eof = 0;
 
+      std::uint64_t run_generation = 0;
+
       void reset_run()
       {
+         ++run_generation;
          h.clear();
          excs.clear();
          std::memset( site_count, 0, sizeof( site_count ) );
